@@ -14,6 +14,12 @@ from unittest import mock
 
 import core
 
+READY = True
+MANIFEST = dict(
+    technique='Lean 4 theorems over a transcribed schedule model (closed form for all draws/parameter sets, induction over the event list for the id window); translator regenerates the parameter sets; exhaustive correspondence over every random draw',
+    text='Theorems (Properties/C15.lean) prove count, first delay, first-gap window, doubling-with-cap for every parameter set and every outcome of both random draws, and that own message ids are skipped while inside the bounded window, for every event sequence. The real parameter sets are regenerated into Generated/UdpParams.lean on each run; the model is compared with _repeated_enqueue_msg on every draw.',
+    note='Trusted: Lean kernel; translator + harness; float summation (<1us) and the 10 ms send raster are outside the model.',
+    ref='5 C15')
 DRIVERS = ['drv_c15']
 RULE = ('one case = (parameter set, initial-delay draw, first-gap draw) or one known-id event sequence; all cases are '
         'distinct by construction (enumeration); non-trivial = schedule has at least one repetition / sequence has a recv')
